@@ -326,9 +326,14 @@ pub fn spaces(tier: Tier) -> Vec<Space<'static>> {
         let len = refmodel::ops::array_length(v).unwrap_or(0) as i32;
         let mut args: Vec<i32> = vec![i32::MIN, i32::MIN + 1, i32::MAX - 1, i32::MAX, i32::MIN + len, i32::MAX - len, i32::MIN + len + 1];
         args.extend((-len - 2)..=(len + 2));
+        let text = if v.all_finite() { Some(refmodel::text::print(v).into_bytes()) } else { None };
         for n in args {
             acc.nontrivial += 1;
             extreme_one(b, n, acc, &|| json!({"doc": format!("{:?}", v), "hex": hex(b)}));
+            // the same probes with the document given as JSON text (the text branches have their own index arithmetic)
+            if let Some(t) = &text {
+                extreme_one(t, n, acc, &|| json!({"doc_text": String::from_utf8_lossy(t)}));
+            }
         }
         acc.sample(|| json!({"doc": format!("{:?}", v), "arguments": "i32::MIN, MIN+1, MAX-1, MAX, MIN+len, MAX-len, -len-2..len+2"}));
     }));
